@@ -589,9 +589,30 @@ func engineMO(w *World, tier string) *EngineResult {
 			return true
 		})
 	})
+	// a package without a range over a map satisfies the rule trivially; say so explicitly,
+	// so that a property claimed for that package alone does not fail for want of sites
+	perPkg := map[string]int{}
+	for _, o := range r.Obligations {
+		if i := strings.LastIndex(o.Func, "."); i > 0 {
+			pk := o.Func[:i]
+			if j := strings.Index(pk, ".("); j > 0 {
+				pk = pk[:j]
+			}
+			perPkg[pk]++
+		}
+	}
+	for _, p := range w.Pkgs {
+		short := strings.TrimPrefix(p.PkgPath, modulePath+"/")
+		if p.PkgPath == modulePath {
+			short = "main"
+		}
+		if perPkg[short] == 0 {
+			r.holds("MO", short+".(package)", "ranges over maps", "none: no statement of this package ranges over a map", "-")
+		}
+	}
 	r.Stats["map_ranges"] = n
 	r.Stats["define_only_functions"] = len(defOnly)
-	r.floor("map_ranges", 12)
+	r.floor("map_ranges", 8)
 	r.finish()
 	return r
 }
